@@ -44,8 +44,32 @@ class _Notif(EventListener):
             self.out.append((SCHED.me() or "?", nm))
 
 
+class _Cmd(EventListener):
+    """a listener that issues a command (once) when it is notified, i.e. on the run thread"""
+
+    def __init__(self, sim, results, onstart, onstop):
+        self.sim, self.results, self.onstart, self.onstop = sim, results, onstart, onstop
+        self.used = set()
+
+    def notify(self, event):
+        from pydsol.core.simulator import Simulator
+        if event.event_type == Simulator.START_EVENT and self.onstart == "stop" and "start" not in self.used:
+            self.used.add("start")
+            self._do("stop", "stop@START")
+        elif event.event_type == Simulator.STOP_EVENT and self.onstop == "start" and "stop" not in self.used:
+            self.used.add("stop")
+            self._do("start", "start@STOP")
+
+    def _do(self, cmd, tag):
+        try:
+            getattr(self.sim, cmd)()
+            self.results.append((tag, "ok"))
+        except DSOLError:
+            self.results.append((tag, "DSOLError"))
+
+
 class Scenario:
-    def __init__(self, script, nevents=2, faults=(), end=10.0, stoppers=()):
+    def __init__(self, script, nevents=2, faults=(), end=10.0, stoppers=(), onstart="none", onstop="none"):
         sched.install()
         SCHED.__init__()
         self._quiet = dd.quiet(keep_main=True)      # the run thread prints tracebacks of injected faults
@@ -64,6 +88,11 @@ class Scenario:
         lst = _Notif(self.notifs)
         for et in dd.notif_types():
             self.sim.add_listener(et, lst)
+        if onstart != "none" or onstop != "none":
+            from pydsol.core.simulator import Simulator
+            self.cmdl = _Cmd(self.sim, self.results, onstart, onstop)
+            self.sim.add_listener(Simulator.START_EVENT, self.cmdl)
+            self.sim.add_listener(Simulator.STOP_EVENT, self.cmdl)
         self.worker = self.sim._Simulator__worker
         # the worker is parked in wait(): take it under control
         t0 = time.time()
